@@ -140,6 +140,18 @@ def gen_cases(tier, seed):
                "pref": [1, 1], "bk": bk, "big": True}
     yield {"objs": [["T", ["i", "j", "k", "l"], 1], ["Z", ["i", "j"], 1], ["Z", ["k", "l"], 1]], "tkind": "anti",
            "pref": [1, 2], "bk": 1, "big": True}
+    # non symmetric tensors with four indices of one space in scrambled orders: the index
+    # minimisation needs products of three transpositions in which a later one joins two
+    # indices that were both moved before
+    import itertools
+    orders = list(itertools.permutations(["i", "j", "k", "l"]))
+    pick = orders if tier != "quick" else [("k", "l", "j", "i"), ("l", "k", "i", "j"), ("j", "k", "l", "i"),
+                                           ("l", "i", "j", "k"), ("k", "i", "l", "j"), ("j", "l", "i", "k")]
+    for order in pick:
+        yield {"objs": [["T", list(order), 1], ["Z", ["i", "j"], 1], ["Z", ["k", "l"], 1]], "tkind": "non",
+               "pref": [1, 1], "big": True}
+    yield {"objs": [["T", ["l", "k", "i", "j", "a"], 1], ["Z", ["i", "j", "a"], 1], ["Z", ["k", "l"], 1]],
+           "tkind": "non", "pref": [1, 1], "big": True}
     for _ in range(60 if tier == "quick" else 250):
         names = rng.sample(OCC, 3) + rng.sample(VIRT, 3)
         tkind = rng.choice(["anti", "anti", "non"])
